@@ -253,6 +253,7 @@ def main():
     ap.add_argument("--exclude", default="")
     ap.add_argument("--prefix", default="shapes")
     ap.add_argument("--cfgs", default="0,1,2,3")
+    ap.add_argument("--no-targeted", action="store_true")
     a = ap.parse_args()
     rng = random.Random(a.seed)
     allowed = set(a.kinds.split(",")) if a.kinds else None
@@ -284,7 +285,7 @@ def main():
     relaunchable_v = ["K_THEN", "K_E2V", "K_UPON_ERROR", "K_LET_VALUE", "K_FINALLY", "K_VIA", "K_ON", "K_SEQUENCE", "K_WHEN_ALL", "K_STOP_WHEN",
                       "K_UNSTOPPABLE", "K_MATDEMAT", "K_DONE_AS_OPT", "K_RETRY_WHEN", "K_DEFER", "K_INTO_VARIANT", "K_WITH_QUERY"]
     relaunchable_e = ["K_V2E", "K_LET_VALUE", "K_FINALLY", "K_VIA", "K_ON", "K_SEQUENCE", "K_STOP_WHEN", "K_UNSTOPPABLE", "K_MATDEMAT", "K_REPEAT", "K_DEFER", "K_WITH_QUERY"]
-    for root_kind, vt0, kinds in (("K_RETRY_WHEN", V, relaunchable_v), ("K_REPEAT", E, relaunchable_e)):
+    for root_kind, vt0, kinds in (() if a.no_targeted else (("K_RETRY_WHEN", V, relaunchable_v), ("K_REPEAT", E, relaunchable_e))):
         for k in kinds:
             if allowed is not None and (k not in allowed or root_kind not in allowed):
                 continue
@@ -307,7 +308,7 @@ def main():
     hop = ("K_LEAF", "K_LEAFV", "K_LEAF_ND")
     aff = ("K_JUST", "K_JVOD", "K_LEAF_AI")
     got = set()
-    for k in KINDS:
+    for k in ([] if a.no_targeted else KINDS):
         if k in hop or k in aff or k in ("K_JUST_FROM", "K_SIR", "K_SCHEDULE", "K_REF", "K_ERRREF", "K_REQSTOP", "K_VARIANT", "K_WITH_ALLOC"):
             continue
         if allowed is not None and k not in allowed:
